@@ -13,9 +13,25 @@
 #include <GeographicLib/GravityCircle.hpp>
 #include <GeographicLib/NormalGravity.hpp>
 #include <GeographicLib/Geocentric.hpp>
+#include <GeographicLib/DMS.hpp>
+#include <GeographicLib/Utility.hpp>
+#include <iostream>
+#include <string>
+#include <sstream>
 #include <fstream>
 #include <sys/stat.h>
+#include <sys/wait.h>
 #include <algorithm>
+
+// tools/Gravity.cpp and tools/MagneticField.cpp of the *current* tree are compiled into this harness (same library build, same
+// sanitizers); their `main` and `usage` live in namespaces.  All headers they include are included above.
+namespace tool_gravity {
+#include "../tools/Gravity.cpp"
+}
+namespace tool_magneticfield {
+#include "../tools/MagneticField.cpp"
+}
+
 using namespace GeographicLib; using namespace gv; using namespace c19;
 
 static std::string fmt(double x) { char b[40]; std::snprintf(b, sizeof b, "%.17g", x); return b; }
@@ -253,7 +269,7 @@ static Reg r_mag("mag", [](const Args& a) {
   double BX = 0, BY = 0, BZ = 0, BXt = 0, BYt = 0, BZt = 0;
   double cBx = 0, cBy = 0, cBz = 0, cBxt = 0, cByt = 0, cBzt = 0, c3x = 0, c3y = 0, c3z = 0;
   double H = 0, F = 0, D = 0, I = 0, Ht = 0, Ft = 0, Dt = 0, It = 0;
-  std::string kern; int deg = -2, ord = -2;
+  std::string kern; int deg = -2, ord = -2; bool circEpochBad = false;
   const Geocentric& earth = Geocentric::WGS84();
   std::string ex = guarded([&] {
     MagneticModel m(name, dir, earth, Nmax, Mmax);
@@ -267,12 +283,31 @@ static Reg r_mag("mag", [](const Args& a) {
     // kernel values for the Lean model of the time interpolation: the gradients of every _harm[i] at the point
     kern = " " + hx(t0) + " " + hx(m._dt0) + " " + hx(rad) + " " + std::to_string((long long)std::fmax(-4e18, std::fmin(4e18, std::isfinite(t) ? std::floor((t - m._t0) / m._dt0) : 0.0))) + " " + std::to_string(nb);
     for (int i = 0; i < nb; ++i) { double g0, g1, g2; m._harm[size_t(i)](X, Y, Z, g0, g1, g2); kern += " " + hx(g0) + " " + hx(g1) + " " + hx(g2); }
+    // the second copy of the epoch logic (MagneticModel::Circle): what it stored in the circle object, the circle's own per-epoch kernel values
+    // at this longitude, and the circle's geocentric field
+    {
+      double slon, clon; Math::sincosd(lon, slon, clon); double k0[3], k1[3], k2[3] = {0, 0, 0}, cG[6];
+      c._circ0(slon, clon, k0[0], k0[1], k0[2]); c._circ1(slon, clon, k1[0], k1[1], k1[2]); if (c._constterm) c._circ2(slon, clon, k2[0], k2[1], k2[2]);
+      c.FieldGeocentric(lon, cG[0], cG[1], cG[2], cG[3], cG[4], cG[5]);
+      kern += " " + hx(c._t1) + " " + std::to_string(int(c._interpolate)) + " " + std::to_string(int(c._constterm)) + " " + hx(c._dt0);
+      for (int k = 0; k < 3; ++k) kern += " " + hx(k0[k]); for (int k = 0; k < 3; ++k) kern += " " + hx(k1[k]); for (int k = 0; k < 3; ++k) kern += " " + hx(k2[k]);
+      for (int k = 0; k < 6; ++k) kern += " " + hx(cG[k]);
+      // which epochs the circle holds: its kernels are those of _harm[n], _harm[n + 1] of the epoch the point evaluation selects
+      if (std::isfinite(t)) {
+        double kk = std::floor((t - m._t0) / m._dt0); int n = kk >= nmod - 1 ? nmod - 1 : (kk > 0 ? int(kk) : 0);
+        double h0[3], h1[3]; m._harm[size_t(n)](X, Y, Z, h0[0], h0[1], h0[2]); m._harm[size_t(n + 1)](X, Y, Z, h1[0], h1[1], h1[2]);
+        double s0 = 0, s1 = 0; for (int k = 0; k < 3; ++k) { s0 += std::fabs(h0[k]); s1 += std::fabs(h1[k]); }
+        for (int k = 0; k < 3; ++k) if (!(std::fabs(k0[k] - h0[k]) <= 1e-9 * s0 + 1e-300 && std::fabs(k1[k] - h1[k]) <= 1e-9 * s1 + 1e-300)) { circEpochBad = true; }
+        if (c._interpolate != (n + 1 < nmod) || c._constterm != (ncon != 0)) circEpochBad = true;
+      }
+    }
   });
   std::remove((dir + "/" + name + ".wmm").c_str()); std::remove((dir + "/" + name + ".wmm.cof").c_str());
   if (!ex.empty()) { emit(ex); bad("mag-load", "a well-formed synthetic model was rejected: " + ex); return; }
   current_op() += kern;
   emit(hx(BX) + " " + hx(BY) + " " + hx(BZ) + " " + hx(BXt) + " " + hx(BYt) + " " + hx(BZt));
   if (!std::isfinite(t)) return;      // evaluated for robustness only (see magx)
+  if (circEpochBad) bad("magcircle-epoch", "MagneticModel::Circle holds other epochs / flags than the point evaluation selects at t = " + fmt(t) + " (Epoch " + fmt(t0) + ", DeltaEpoch " + fmt(dt0) + ", " + std::to_string(nmod) + " models)");
   // ---- the field implied by the file's coefficients
   bool trunc = Nmax >= 0 || Mmax >= 0; int NmaxE = Nmax, MmaxE = Mmax;
   if (trunc) { if (Nmax >= 0 && Mmax < 0) MmaxE = Nmax; if (Nmax < 0) NmaxE = 1 << 30; if (MmaxE < 0) MmaxE = 1 << 30; } else { NmaxE = MmaxE = 1 << 30; }
@@ -331,7 +366,6 @@ static Reg r_mag("mag", [](const Args& a) {
 
 // op: magx <same arguments as mag>: extreme times (huge, infinite, NaN) evaluated in a forked child, so that a sanitizer abort
 // (conversion of an out-of-range floating value to int) is reported as a failing input of this op and does not end the run
-#include <sys/wait.h>
 static Reg r_magx("magx", [](const Args& a) {
   std::string of = tmpdir() + "/magx.out";
   std::fflush(stdout);
@@ -624,6 +658,9 @@ static Reg r_cofbad("cofbad", [](const Args& a) {
   if (res != "!E" && !(need >= 0 && need <= 64)) bad("malformed-file-rejected", "a coefficient file announcing degree " + std::to_string(N0) + " order " + std::to_string(M0) + " with 64 values was not rejected with GeographicErr: " + (res.empty() ? std::string("accepted") : res));
 });
 
+#include "C19_glue.hpp"
+#include "C19_glue2.hpp"
+
 // ------------------------------------------------------------------------------------------------------------------
 // generators
 // ------------------------------------------------------------------------------------------------------------------
@@ -683,6 +720,8 @@ void gv::generate(const std::string& tier, uint64_t seed) {
       if (nmx == -1 && mmx != -1 && mmx != 0) continue;
       run("coeff", {std::to_string(N), std::to_string(nmx), std::to_string(mmx), std::to_string(Ms)}); stratum("coeff-exhaustive");
     }
+    // repair 3a5948e: an empty set still needs a layout degree N >= -1
+    for (int N : {-2, -5, -2147483647}) { run("coeff", {std::to_string(N), "-1", "-1", "-1"}); stratum("coeff-negative-layout"); }
     // regression of the overflow fix: huge / inconsistent degrees in a coefficient file
     for (int kind = 0; kind < 2; ++kind)
       for (auto nm : std::vector<std::pair<long, long>>{{2147483647L, 2147483647L}, {46342, 46342}, {46341, 0}, {65536, 65536}, {1000000, 3}, {-1, 0}, {3, 5}, {-2, -2}, {2147483647L, 0}, {46339, 0}, {46340, 1}, {12, 12}, {9, 9}, {-2147483647L - 1, 0}})
@@ -743,6 +782,95 @@ void gv::generate(const std::string& tier, uint64_t seed) {
     run("ng", {hx(a), hx(GM), hx(om), hx(f), hx(lat), hx(h), hx(lon)}); stratum("ng-ell" + std::to_string(k));
     if (i % 4 == 0 && (std::fabs(f) > 1e-5 || f == 0)) { run("ngu", {hx(GM), hx(om), hx(a), hx(f), hx(a * (1 - f) * (r.irange(0, 2) ? 1.0 : r.range(1, 3))), hx(r.range(-90, 90))}); stratum(f > 0 ? "ngu" : f < 0 ? "ngu-prolate" : "ngu-sphere"); }
     if (i % 4 == 1) { double m = om * om * a * a * a / GM; run("ngj", {hx(a), hx(GM), hx(om), hx(r.coin() ? r.range(-0.01, 0.03) - m / 3 : r.range(-0.3, 0.2))}); stratum("ngj"); }
+    if (i % 2 == 0) {   // V0, Phi, U = V0 + Phi, accessors at a point outside / on / (for small |f|) slightly inside the ellipsoid, incl. the axis and the equatorial plane
+      double rr = a * (r.irange(0, 3) ? r.range(1.0, 1.5) : r.range(1.0 - std::fmin(0.05, std::fabs(f)) * 0.5, 1.0)) * std::fmax(1.0, 1 - f), la = r.irange(0, 5) ? r.range(-90, 90) : r.pick(std::vector<double>{90, -90, 0}), lo = r.range(-180, 180);
+      double sp, cp, sl, cl; Math::sincosd(la, sp, cp); Math::sincosd(lo, sl, cl);
+      run("ngv", {hx(a), hx(GM), hx(om), hx(f), hx(rr * cp * cl), hx(rr * cp * sl), hx(rr * sp)}); stratum("ngv-ell" + std::to_string(k));
+    }
+  }
+  // (6) the glue: accessors, capability masks, Phi, U, W = V + Phi
+  const std::vector<double> lats = {90, -90, 0, 45}, lons = {0, 180, -180, 90, 270, 359.75, -540};
+  for (int i = 0, n = th ? 1500 : 250; i < n; ++i) {
+    int N = r.irange(0, 7) ? r.irange(2, 12) : r.irange(0, 2), M = r.irange(0, 3) ? N : r.irange(0, N);
+    double dgm = r.irange(0, 3) ? r.pick(std::vector<double>{1e-5, -1e-5, -7.5e-10, 1e-3}) : 0.0;
+    double fl = r.pick(std::vector<double>{1 / 298.257223563, 1 / 298.257222101, 0.001, 1 / 150.0}); int flmode = r.irange(0, 2);
+    double lat = r.irange(0, 7) ? r.range(-90, 90) : r.pick(lats), lon = r.irange(0, 7) ? r.range(-180, 180) : r.pick(lons), h = r.irange(0, 1) ? r.range(-5000, 400000) : 0.0;
+    int Nmax = -1, Mmax = -1; if (r.irange(0, 3) == 0) { Nmax = r.irange(0, N + 1); Mmax = r.irange(0, 2) ? -1 : r.irange(0, Nmax); } else if (r.irange(0, 9) == 0) { Mmax = r.irange(0, N); }
+    run("gvacc", {std::to_string(r.next() % 1000000007ULL), std::to_string(r.irange(0, 3) ? 0 : 1), std::to_string(N), std::to_string(M), hx(dgm), hx(fl), std::to_string(flmode), hx(lat), hx(lon), hx(h), std::to_string(Nmax), std::to_string(Mmax)});
+    stratum(std::string("gvacc") + (h == 0 ? "-h0" : "") + (flmode == 2 ? "-J2" : flmode == 1 ? "-fraction" : "") + (Nmax >= 0 || Mmax >= 0 ? "-trunc" : ""));
+  }
+  for (int i = 0, n = th ? 3000 : 400; i < n; ++i) {
+    int nmod = r.irange(0, 1) ? 1 : r.irange(2, 4), ncon = r.irange(0, 2) == 0, N = r.irange(1, 10), M = r.irange(0, 3) ? N : r.irange(0, N);
+    double t = r.range(1890, 2060), lat = r.irange(0, 7) ? r.range(-90, 90) : r.pick(lats), lon = r.irange(0, 7) ? r.range(-180, 180) : r.pick(lons), h = r.irange(0, 3) ? r.range(-1000, 850000) : 0.0;
+    int Nmax = -1, Mmax = -1; if (r.irange(0, 3) == 0) { Nmax = r.irange(0, N + 1); Mmax = r.irange(0, 2) ? -1 : r.irange(0, Nmax); }
+    run("mgacc", {std::to_string(r.next() % 1000000007ULL), std::to_string(r.irange(0, 3) ? 1 : 0), std::to_string(nmod), std::to_string(ncon), std::to_string(N), std::to_string(M), hx(t), hx(lat), hx(lon), hx(h), std::to_string(Nmax), std::to_string(Mmax)});
+    stratum("mgacc-models" + std::to_string(nmod) + (ncon ? "-const" : ""));
+  }
+  // FieldComponents: generic fields, the documented degenerate cases H = 0 and F = 0, axis-aligned fields, extreme magnitudes
+  for (int i = 0, n = th ? 40000 : 3000; i < n; ++i) {
+    int k = r.irange(0, 9); double sc = k == 7 ? std::pow(10.0, r.range(-150, -100)) : k == 8 ? std::pow(10.0, r.range(100, 150)) : 50000.0, b[6];
+    for (int j = 0; j < 6; ++j) b[j] = (j < 3 ? sc : sc * 0.01) * r.range(-1, 1);
+    switch (k) { case 0: b[0] = b[1] = 0; break; case 1: b[0] = b[1] = b[2] = 0; break; case 2: b[0] = 0; break; case 3: b[1] = 0; break; case 4: b[2] = 0; break;
+      case 5: b[0] = b[1] = 0; b[3] = b[4] = 0; break; case 6: b[0] = b[1] = b[2] = 0; b[3] = b[4] = b[5] = 0; break; default: break; }
+    if (k <= 6 && r.coin()) for (int j = 0; j < 6; ++j) if (b[j] == 0 && r.coin()) b[j] = -0.0;
+    run("fcomp", {hx(b[0]), hx(b[1]), hx(b[2]), hx(b[3]), hx(b[4]), hx(b[5])}); stratum("fcomp-" + std::to_string(k));
+  }
+  // the normal zonal terms subtracted by GravityModel
+  for (int i = 0, n = th ? 3000 : 400; i < n; ++i) {
+    int N = r.irange(0, 9) ? r.irange(2, 26) : r.irange(0, 2), M = r.irange(0, 3) ? std::min(N, 4) : r.irange(0, std::min(N, 6));
+    double dgm = r.irange(0, 3) ? r.pick(std::vector<double>{1e-5, -1e-5, -7.5e-10, 1e-3}) : 0.0, fl = r.pick(std::vector<double>{1 / 298.257223563, 1 / 298.257222101, 0.001, 1 / 150.0, 0.0, -0.002});
+    int Nmax = r.irange(0, 3) ? -1 : r.irange(0, N + 1); int norm = r.irange(0, 1);
+    run("gzon", {std::to_string(r.next() % 1000000007ULL), std::to_string(norm), std::to_string(N), std::to_string(M), hx(dgm), hx(fl), std::to_string(Nmax)});
+    stratum(std::string("gzon") + (norm ? "-schmidt" : "-full") + (Nmax >= 0 ? "-trunc" : "") + (fl <= 0 ? "-f<=0" : ""));
+  }
+  // file lookup, metadata variations, readcoeffs
+  if (first) {
+    for (int caps = 0; caps < 64; ++caps) for (int hz = 0; hz < 2; ++hz) { run("gcaps", {std::to_string(caps), std::to_string(hz)}); stratum("gcaps-exhaustive"); }
+    for (int kind = 0; kind < 2; ++kind) for (int sp = 0; sp < 3; ++sp) for (int da = 0; da < 3; ++da) for (int nm = 0; nm < 3; ++nm) { run("paths", {std::to_string(kind), std::to_string(sp), std::to_string(da), std::to_string(nm)}); stratum("paths"); }
+    for (int kind = 0; kind < 2; ++kind) for (int v : {0, 1, 2, 3, 4, 5, 6, 10, 11, 12, 13, 14, 15, 16, 17, 18, 19, 20, 21, 22, 23, 30, 31, 32, 33, 34, 35, 36, 37, 38, 39, 40}) { run("modelerr", {std::to_string(kind), std::to_string(v)}); stratum(v < 10 || v == 37 || v == 38 ? "modelerr-harmless" : "modelerr-violation"); }
+    int Nex = th ? 6 : 4;
+    for (int N0 = -1; N0 <= Nex; ++N0) for (int M0 = -1; M0 <= N0; ++M0) {
+      if ((N0 == -1) != (M0 == -1)) continue;
+      run("rdco", {std::to_string(N0), std::to_string(M0), "0", "0", "0"}); stratum("rdco-exhaustive");
+      for (int Nq = -1; Nq <= N0 + 1; ++Nq) for (int Mq = -1; Mq <= Nq; ++Mq) { run("rdco", {std::to_string(N0), std::to_string(M0), std::to_string(Nq), std::to_string(Mq), "1"}); stratum("rdco-exhaustive"); }
+    }
+    for (auto nm : std::vector<std::pair<int, int>>{{3, 4}, {-1, 0}, {-2, -2}, {0, -1}}) { run("rdco", {std::to_string(nm.first), std::to_string(nm.second), "0", "0", "0"}); stratum("rdco-bad-header"); }
+  }
+  for (int i = 0, n = th ? 1500 : 150; i < n; ++i) {
+    int N0 = r.irange(0, 40), M0 = r.irange(0, N0), tr = r.irange(0, 3) != 0, Nq = r.irange(0, 5) ? r.irange(0, N0 + 2) : N0, Mq = r.irange(0, 3) ? r.irange(0, Nq) : std::min(Nq, M0);
+    run("rdco", {std::to_string(N0), std::to_string(M0), std::to_string(Nq), std::to_string(Mq), std::to_string(tr)}); stratum(tr ? "rdco-truncate" : "rdco-full");
+  }
+  // the simple constructors and the accessors of the harmonic classes
+  for (int i = 0, n = th ? 6000 : 800; i < n; ++i) {
+    int L = r.irange(1, 3), N = r.irange(0, 9) ? r.irange(0, 12) : -1, N1 = r.irange(0, 7) ? r.irange(-1, std::max(N, -1)) : N + 1, N2 = r.irange(0, 7) ? r.irange(-1, std::max(N, -1)) : N + r.irange(1, 3);
+    int extra = r.irange(0, 5) == 0 ? r.irange(1, 5) : (r.irange(0, 7) == 0 ? -r.irange(1, 2) : 0);
+    double a = r.pick(std::vector<double>{1.0, 6378137.0}), x, y, z; point(r, a, r.irange(0, 6), x, y, z);
+    run("shctor", {std::to_string(r.irange(0, 1)), std::to_string(L), std::to_string(r.next() % 1000000007ULL), std::to_string(N), std::to_string(N1), std::to_string(N2), std::to_string(extra), hx(a), hx(x), hx(y), hx(z),
+                   hx(r.pick(std::vector<double>{1.0, -1.0, 0.5, 0.0, r.range(-3, 3)})), hx(r.pick(std::vector<double>{1.0, -1.0, 2.0, r.range(-3, 3)}))});
+    stratum("shctor-L" + std::to_string(L) + (extra > 0 ? "-longer" : extra < 0 ? "-short" : "") + ((L >= 2 && N1 > N) || (L == 3 && N2 > N) ? "-N1>N" : ""));
+  }
+  // the static root table
+  for (int i = 0, n = th ? 40 : 8; i < n; ++i) {
+    int Nb = r.irange(8, th ? 120 : 60), Ns = r.irange(0, Nb - 1);
+    run("roots", {std::to_string(r.next() % 1000003ULL), std::to_string(r.irange(0, 1)), std::to_string(Ns), std::to_string(Nb)}); stratum("roots");
+  }
+  // (7) tools/Gravity and tools/MagneticField
+  for (int i = 0, n = th ? 1200 : 200; i < n; ++i) {
+    int N = r.irange(2, 10), M = r.irange(0, 3) ? N : r.irange(0, N), mode = r.irange(0, 3), prec = r.irange(0, 2) ? -1 : r.irange(0, 12), flags = (r.irange(0, 3) == 0) | (r.irange(0, 3) == 0) << 1 | (r.irange(0, 3) == 0) << 2;
+    double dgm = r.coin() ? 1e-5 : 0.0, lat = r.irange(0, 7) ? r.range(-90, 90) : r.pick(lats), h = r.coin() ? r.range(-5000, 400000) : 0.0;
+    int Nmax = r.irange(0, 3) ? -1 : r.irange(0, N + 1), Mmax = Nmax >= 0 && r.coin() ? r.irange(0, Nmax) : -1;
+    run("gravtool", {std::to_string(r.next() % 1000000007ULL), std::to_string(r.irange(0, 3) ? 0 : 1), std::to_string(N), std::to_string(M), hx(dgm), std::to_string(mode), std::to_string(prec), std::to_string(Nmax), std::to_string(Mmax), hx(lat), hx(h),
+                     std::to_string(flags), std::to_string(r.irange(0, 7) ? r.irange(1, 6) : 0)});
+    stratum(std::string("gravtool-") + "GDAH"[mode] + (prec >= 0 ? "-p" : ""));
+  }
+  for (int i = 0, n = th ? 1200 : 200; i < n; ++i) {
+    int nmod = r.irange(0, 1) ? 1 : r.irange(2, 3), ncon = r.irange(0, 2) == 0, N = r.irange(1, 8), M = r.irange(0, 3) ? N : r.irange(0, N), tmode = r.irange(0, 2), prec = r.irange(0, 2) ? 1 : r.irange(0, 10);
+    int flags = (r.irange(0, 3) == 0) | (r.irange(0, 2) == 0) << 1 | (r.irange(0, 3) == 0) << 2 | (r.irange(0, 2) == 0) << 3;
+    double span = nmod * 2.5, time = 2020 + (r.irange(0, 5) ? r.range(-0.1, 1.1) * span : r.pick(std::vector<double>{-3.0, span + 3, -60.0, span + 60, 0.0, span}));
+    double lat = r.irange(0, 7) ? r.range(-90, 90) : r.pick(lats), h = r.irange(0, 5) ? r.range(-1000, 600000) : r.pick(std::vector<double>{0.0, 600500.0, 602000.0, -2500.0, 1.2e6});
+    run("magtool", {std::to_string(r.next() % 1000000007ULL), std::to_string(r.irange(0, 3) ? 1 : 0), std::to_string(nmod), std::to_string(ncon), std::to_string(N), std::to_string(M), std::to_string(tmode), hx(time), hx(lat), hx(h),
+                    std::to_string(prec), std::to_string(flags), std::to_string(r.irange(0, 3) ? -1 : r.irange(0, N)), std::to_string(r.irange(0, 7) ? r.irange(1, 6) : 0)});
+    stratum(std::string("magtool-") + (tmode == 0 ? "line-time" : tmode == 1 ? "t" : "c") + (flags & 2 ? "-r" : "") + (flags & 8 ? "-guards" : ""));
   }
 }
 int main(int argc, char** argv) { return gv::main_(argc, argv); }
